@@ -17,6 +17,7 @@ import ChibiVerif.Spec.PsABI
 import ChibiVerif.Spec.CallRegions
 import ChibiVerif.Lemmas.CallConvLemmas
 import ChibiVerif.Lemmas.PsABILemmas
+import ChibiVerif.Lemmas.VaLemmas
 
 namespace ChibiVerif.Props.C06
 open ChibiVerif.CallConv
@@ -103,6 +104,73 @@ example :
                                 .dbl, .flt, .agg false 12 4 (.cons 0 (.arr .flt 3) .nil), .int 1 true true],
                      nNamed := 10, variadic := false }
     sizesOk s = true ∧ supported s = true := by decide
+
+/-! ## variadic functions -/
+
+/-- the signature seen by the callee's prologue: the named parameters only -/
+def namedSig (s : Sig) : Sig := { s with params := s.named }
+
+/-- full statement: in a chibicc-compiled variadic function the k-th `va_arg` reads the k-th variadic argument from where
+    psABI 3.2.3 / 3.5.7 put it, for every variadic argument type.  False for aggregates of at most 16 bytes
+    (known finding C06-va-arg-small-struct, Findings/C06.lean). -/
+def C06_va_Statement : Prop :=
+  ∀ s : Sig, sizesOk s = true → s.nNamed ≤ s.params.length → supported (namedSig s) = true →
+    (calleeVa s).map some = ((PsABI.assign s).drop s.nNamed).map PsABI.vaLoc
+
+/-- **C06 (va_arg across register exhaustion).**  For every variadic signature whose named part is outside the known-finding
+    regions and whose variadic arguments are promoted integers/pointers, doubles, long doubles or aggregates of more than
+    16 bytes, in any number and order: the `va_area` set-up of the prologue (gp_offset, fp_offset, overflow_arg_area counted
+    like `assign_lvar_offsets`) followed by the walkers `__va_arg_gp/fp/mem` of include/stdarg.h yields for the k-th `va_arg`
+    exactly the save-area slot or overflow-area offset of the k-th variadic argument under the psABI — through the
+    exhaustion of the 6 INTEGER and 8 SSE registers and with the 16-byte alignment of long double in the overflow area. -/
+theorem C06_va_partial (s : Sig) (hs : sizesOk s = true) (hn : s.nNamed ≤ s.params.length)
+    (h : supported (namedSig s) = true) (hv : (s.params.drop s.nNamed).all vaArgOk = true) :
+    (calleeVa s).map some = ((PsABI.assign s).drop s.nNamed).map PsABI.vaLoc := by
+  simp only [sizesOk, Bool.and_eq_true] at hs
+  simp only [supported, namedSig, Bool.and_eq_true, Bool.not_eq_true'] at h
+  obtain ⟨⟨hty, hret⟩, hpad⟩ := h
+  have hmem := retInMemory_eq s.ret hret
+  have hb : min (b2n (retLarge s.ret)) GP_MAX = b2n (retLarge s.ret) := by
+    simp only [b2n, GP_MAX_eq]; split <;> omega
+  have h0 : min 0 FP_MAX = 0 := by simp
+  have hst : ((if PsABI.retInMemory s.ret then 1 else 0 : Nat), (0 : Nat), (0 : Nat))
+      = (min (b2n (retLarge s.ret)) GP_MAX, min 0 FP_MAX, 0) := by
+    rw [hb, h0, hmem]; rfl
+  have hnamed : s.named.all aggSizeOk = true := all_take _ _ _ hs.1
+  have hloop := abi_loop s.named (b2n (retLarge s.ret)) 0 0 hnamed hty (by
+    simp only [CallRegions.stackAlignPad] at hpad; rw [hst] at hpad; exact hpad)
+  -- the psABI side: split the argument list at the last named parameter
+  have hsplit : s.params = s.named ++ s.params.drop s.nNamed := by
+    simp only [Sig.named]; exact (List.take_append_drop _ _).symm
+  have hlen : (PsABI.assignLoop (min (b2n (retLarge s.ret)) GP_MAX, min 0 FP_MAX, 0) s.named).2.length = s.nNamed := by
+    rw [assignLoop_length]; simp only [Sig.named, List.length_take]; omega
+  have hspec : (PsABI.assign s).drop s.nNamed =
+      (PsABI.assignLoop (PsABI.assignLoop (min (b2n (retLarge s.ret)) GP_MAX, min 0 FP_MAX, 0) s.named).1
+        (s.params.drop s.nNamed)).2 := by
+    simp only [PsABI.assign]
+    rw [hst]
+    conv => lhs; rw [hsplit]
+    rw [assignLoop_append, ← hlen, List.drop_left]
+  rw [hspec, hloop]
+  -- the chibicc side
+  simp only [calleeVa]
+  rw [vaInit_eq s hs.1]
+  have hg : min (refLoop (b2n (retLarge s.ret), 0, 0) s.named).1.1 GP_MAX ≤ 6 := by rw [GP_MAX_eq]; omega
+  have hf : min (refLoop (b2n (retLarge s.ret), 0, 0) s.named).1.2.1 FP_MAX ≤ 8 := by rw [FP_MAX_eq]; omega
+  have h8 := refLoop_fst_bounds s.named (b2n (retLarge s.ret)) 0 0 (by decide)
+  have := va_walk (s.params.drop s.nNamed) _ _ _ hg hf h8 hv
+  rw [← this]
+  congr 2
+  rw [Nat.mul_comm _ 8, Nat.mul_comm _ 16, Nat.add_comm _ 48]
+
+example :
+    let s : Sig := { ret := none,
+                     params := [.int 4 false false, .dbl, .int 8 false false, .ldbl, .dbl, .int 4 false false, .int 8 false false,
+                                .int 8 false false, .int 8 false false, .int 8 false false, .dbl, .dbl, .dbl, .dbl, .dbl, .dbl, .dbl,
+                                .dbl, .ldbl, .agg false 24 8 (.cons 0 (.int 8 false false) (.cons 8 .dbl (.cons 16 .dbl .nil)))],
+                     nNamed := 2, variadic := true }
+    sizesOk s = true ∧ s.nNamed ≤ s.params.length ∧ supported (namedSig s) = true ∧ (s.params.drop s.nNamed).all vaArgOk = true := by
+  decide
 
 /-! ## stack alignment and clean-up -/
 
